@@ -27,7 +27,8 @@ Record denv : Type := mkEnv {
   e_asg : N -> N;
   e_msel : list (string * bytes);
   e_subs : list routine;
-  e_in_sub : bool
+  e_in_sub : bool;
+  e_param : N -> instr              (* how parameter i is loaded in the current routine *)
 }.
 
 Definition arg_to_imm (env : denv) (o : opc) (a : arg) : option imm :=
@@ -276,6 +277,7 @@ Section Denote.
         | EWide ns ds =>
             bind (den_factors env den ns stk st) (fun s1 st1 =>
             bind (den_factors env den ds s1 st1) (fun s2 st2 => den_ops env combine_ops s2 st2))
+        | EParam i => do_op env (i_op (e_param env i)) (i_args (e_param env i)) stk st
         end
     end.
 End Denote.
